@@ -5,6 +5,7 @@ import (
 	"encoding/hex"
 	stdjson "encoding/json"
 	"fmt"
+	"math/big"
 	"os"
 	"reflect"
 	"strconv"
@@ -153,8 +154,8 @@ func checkText(c *Case, b []byte) string {
 	return ""
 }
 
-// sameValue: both texts denote the same JSON value (objects as last-wins maps, numbers by their
-// float64 value or identical text).
+// sameValue: both texts denote the same JSON value (objects as last-wins maps, numbers by their exact
+// rational value).
 func sameValue(a, b []byte) bool {
 	var x, y interface{}
 	da := stdjson.NewDecoder(bytes.NewReader(a))
@@ -170,10 +171,17 @@ func sameValue(a, b []byte) bool {
 func normNumbers(v interface{}) interface{} {
 	switch t := v.(type) {
 	case stdjson.Number:
-		if f, err := strconv.ParseFloat(string(t), 64); err == nil {
-			return f
+		// exact value: the escaped text must denote the same number, not merely the same float64
+		txt := string(t)
+		if k := strings.IndexAny(txt, "eE"); k >= 0 {
+			if e, err := strconv.Atoi(txt[k+1:]); err != nil || e > 4000 || e < -4000 {
+				return "text:" + strings.ToLower(txt)
+			}
 		}
-		return string(t)
+		if r, ok := new(big.Rat).SetString(txt); ok {
+			return "rat:" + r.RatString()
+		}
+		return "text:" + txt
 	case []interface{}:
 		for i := range t {
 			t[i] = normNumbers(t[i])
